@@ -316,6 +316,10 @@ def san_case(c):
             changed = ratios[np.abs(ratios - 1.0) > 1e-12] if a.dtype != np.complex128 else ratios[np.abs(ratios - 1.0) > 1e-12]
             ok = bool(ratios.size and np.all(np.isfinite(ratios)) and not zero_changed and (changed.size == 0 or np.ptp(changed) <= 1e-9 * max(abs(np.mean(changed)), 1e-300)))
             out.setdefault('scaled_like', {})[k] = ok
+            if k == 'r' and ok and changed.size and np.isfinite(b[-1]) and b[-1] != 0:
+                # the known defect leaves the arrays in NON-DIMENSIONAL units: radius divided by the planet radius (factor x R == 1). Any other common factor
+                # (e.g. arrays re-dimensionalised twice, factor R; found by seed C06-i) is a different defect
+                out['radius_factor_times_R'] = float(np.mean(changed) * b[-1])
     out['input_dev'] = dev
     return out
 
@@ -417,7 +421,9 @@ def eval_case(c):
             cnt['input_snapshots_compared'] += 1
             bad = {k: v for k, v in res['input_dev'].items() if not (v <= 8 * 2.2e-16)}
             if bad:
-                if res.get('outcome') == 'exception' and c.get('nondim') and all(res.get('scaled_like', {}).get(k, False) or not math.isfinite(v) for k, v in bad.items()):
+                rf = res.get('radius_factor_times_R')
+                nondim_units = (rf is None and not math.isfinite(bad.get('r', float('inf')))) or (rf is not None and abs(rf - 1.0) <= 1e-9)
+                if res.get('outcome') == 'exception' and c.get('nondim') and nondim_units and all(res.get('scaled_like', {}).get(k, False) or not math.isfinite(v) for k, v in bad.items()):
                     key = 'inputs-left-nondimensionalised-after-early-exception'
                 else:
                     key = 'inputs-modified'
